@@ -1,0 +1,32 @@
+// SPDX-FileCopyrightText: 2020-present Open Networking Foundation <info@opennetworking.org>
+//
+// SPDX-License-Identifier: Apache-2.0
+
+//go:build verif
+// +build verif
+
+package proposal
+
+import (
+	"github.com/onosproject/onos-config/pkg/pluginregistry"
+	"github.com/onosproject/onos-config/pkg/southbound/gnmi"
+	"github.com/onosproject/onos-config/pkg/store/topo"
+	"github.com/onosproject/onos-config/pkg/store/v2/configuration"
+	proposalstore "github.com/onosproject/onos-config/pkg/store/v2/proposal"
+)
+
+// NewReconcilerForVerif builds the proposal reconciler for the external verification harness
+func NewReconcilerForVerif(topo topo.Store, conns gnmi.ConnManager, proposals proposalstore.Store,
+	configurations configuration.Store, pluginRegistry pluginregistry.PluginRegistry) *Reconciler {
+	return &Reconciler{conns: conns, topo: topo, proposals: proposals, configurations: configurations, pluginRegistry: pluginRegistry}
+}
+
+// NewWatcherForVerif builds the proposal store watcher
+func NewWatcherForVerif(proposals proposalstore.Store) *Watcher {
+	return &Watcher{proposals: proposals}
+}
+
+// NewConfigurationWatcherForVerif builds the configuration store watcher of the proposal controller
+func NewConfigurationWatcherForVerif(configurations configuration.Store) *ConfigurationWatcher {
+	return &ConfigurationWatcher{configurations: configurations}
+}
